@@ -141,7 +141,7 @@ inductive Step (o : Oracle) (op : Nat) : St × Io → Ev → St × Io → Prop
       (hnf : ¬ ((fastReq op s io).forceFlush = true ∧ fastBs s io = 0))
       (hcap : ¬ fastCap (fastS1 s io) io (fastInplace s io) < 2) (hin : ¬ fastBs s io > io.input.length)
       (hfit : ¬ (s.lastBytesBits + (o s.nEnc (fastReq op s io)).bits.length) / 8 + 2 > fastCap (fastS1 s io) io (fastInplace s io)) :
-      Step o op (s, io) (.fast s.nEnc (fastReq op s io)) (fastRes o op s io)
+      Step o op (s, io) (.fast s.nEnc (fastReq op s io)) ((fastRes o op s io).1, (fastRes o op s io).2)
   | mdEnter {s : St} {io : Io} (hI : Inv s) (hop : op = 3)
       (hentry : (s.remainingMetadata ≠ u32Max ∧ io.availIn = s.remainingMetadata) ∨
                 (s.remainingMetadata = u32Max ∧ s.streamState = .processing ∧ io.availIn ≤ 16777216)) :
